@@ -106,6 +106,20 @@ def job(jc, spec):
             base = 'EXC %s' % type(e).__name__
         base_of[(cn, mn, desc)] = base
         sizes = list(PLAN.sizes)
+        # history first: the same call once more, nothing perturbed.  A method whose text already changes here is reported
+        # as history-dependent and not permuted (every permuted run would differ for the same reason)
+        PLAN.reset()
+        try:
+            again = decomp(mods, dx, m)
+        except Exception as e:
+            again = 'EXC %s' % type(e).__name__
+        eng.st.obligations += 1
+        if again != base:
+            jc.concrete_violation(dict(file=name, cls=cn, method=mn, desc=desc, orders={}, history=True), label=label,
+                                  what='source differs when the method is decompiled a second time in the same process')
+            base_of[(cn, mn, desc)] = None
+            continue
+        eng.st.discharged += 1
         if not sizes:
             jc.reached('methods without an order-consuming site')
             continue
@@ -147,6 +161,8 @@ def job(jc, spec):
         except Exception as e:
             again = 'EXC %s' % type(e).__name__
         eng.st.obligations += 1
+        if base_of[(cn, mn, desc)] is None:
+            continue
         if again != base_of[(cn, mn, desc)]:
             jc.concrete_violation(dict(file=name, cls=cn, method=mn, desc=desc, orders={}, history=True), label='%s %s->%s' % (name, cn, mn),
                                   what='source differs when the method is decompiled again after other methods')
@@ -179,7 +195,7 @@ def run(ctx):
                       orders='every single order-consuming site (set iteration / pop with >= 2 elements whose hash is seed or layout '
                       'dependent) through all permutations up to 4 elements, 4 fixed permutations beyond' +
                       ('; every pair of sites for methods with <= 10 sites (test package of TestActivity.apk and the other files)' if ctx.thorough else ''),
-                      history='each method decompiled a second time after the other methods of its group, in reverse order')
+                      history='each method decompiled a second time at once, and a third time after the other methods of its group (in reverse order)')
     ctx.stubs = ['every set of androguard.decompiler.* is an OrderSet (name shadowing + AST rewrite of set displays / comprehensions)',
                  'sets whose elements all hash deterministically (ints, tuples of ints) keep the real CPython order']
     ctx.assumptions = ['set iteration order (and set.pop) is the only channel for hash-seed / layout dependence; dict order is insertion order',
@@ -271,13 +287,22 @@ def replay(w):
         PLAN.reset()
         base = decomp(mods, dx, m)
         sizes = list(PLAN.sizes)
+        # (2a) history: the same call again, and again after other methods, nothing perturbed
+        PLAN.reset()
+        again = decomp(mods, dx, m)
+        if again == base:
+            others = [decomp(mods, dx, x[3]) for x in ms[:8]]
+            PLAN.reset()
+            again = decomp(mods, dx, m)
+        if again != base:
+            import difflib
+            diff = '\n'.join(list(difflib.unified_diff(base.splitlines(), again.splitlines(), lineterm='', n=0))[:12])
+            return True, ('%s %s->%s%s: the real decompiler prints different source for the same method depending on what this '
+                          'process decompiled before (first call vs a later call, same set orders):\n%s' % (
+                              w['file'], w['cls'], w['method'], w['desc'], diff))
         chosen = {int(k): tuple(v) for k, v in w['orders'].items()}
         PLAN.reset(lambda k, n: chosen.get(k) if k in chosen and k < len(sizes) and n == sizes[k] else None)
         out = decomp(mods, dx, m)
-        if w.get('history'):
-            others = [decomp(mods, dx, x[3]) for x in ms[:8]]
-            PLAN.reset()
-            out = decomp(mods, dx, m)
     finally:
         for mm in mods.values():
             if getattr(mm, 'set', None) is OrderSet:
